@@ -184,8 +184,9 @@ def run(ctx):
     quick = ctx.tier == "quick"
     rng = ctx.rng
     cases = [c for c in answers.load_corpus("C13")]
-    bases = answers.gen_cases(ctx, 45 if quick else 900, (2, 4), (1, 5), [False, False, True], ties=0.3, q_per=6, consts=0.08)
+    bases = answers.gen_cases(ctx, 140 if quick else 1500, (2, 5), (1, 5), [False, False, True], ties=0.25, q_per=6, consts=0.08, deep=0.35)
     for b in bases:
+        layers = b["_info"]["layers"]
         b = {k: v for k, v in b.items() if not k.startswith("_")}
         cfgs = [c for c in CFGS if not (b["weakly"] and c[0] == "c-inference")]
         system, pm = rng.choice(cfgs)
@@ -205,13 +206,17 @@ def run(ctx):
             if multi:
                 par_budget -= 1
             history.append({"queries": qs, "multi": multi})
-        cases.append({"n": b["n"], "weakly": b["weakly"], "base": b["base"], "system": system, "pmaxsat": pm, "history": history})
+        # bases with >= 3 layers (deep recursions, more solver state to leak) are asked with every operator
+        for system, pm in (cfgs if (layers or 0) >= 3 else [(system, pm)]):
+            cases.append({"n": b["n"], "weakly": b["weakly"], "base": b["base"], "layers": layers, "system": system, "pmaxsat": pm,
+                          "history": history})
     impls = pmap_nd(impl_eval, cases, min(ctx.procs, 8))
     for c, impl in zip(cases, impls):
         ref = impl.get("ref") if c["system"] == "c-inference" else reference(c)
         ctx.evaluations += sum(len(call["queries"]) for call in c["history"])
         ctx.bump(f"operator={c['system']}/{c['pmaxsat']}")
         ctx.bump(f"calls={len(c['history'])}")
+        ctx.bump(f"layers={c.get('layers')}")
         par = sum(1 for call in c["history"] if call["multi"])
         ctx.bump("parallel_calls", par)
         dup = any(len({json.dumps(q[1:]) for q in call["queries"]}) < len(call["queries"]) for call in c["history"])
